@@ -81,6 +81,22 @@ def structure_case(task):
                     if not same:
                         msgs.append(f"{tag}: the generator of GKLS({n},{k % 100 + 1}) re-targeted with SetFunctionNumber({k}) does "
                                     f"not reproduce the tables of a freshly built GKLS({n},{k})")
+                    # the same generator switched to the other class and asked for the same number must become the
+                    # function a freshly configured generator of that class produces (not stay what it was)
+                    if k % 10 == 1 and hasattr(gen, "SetFunctionClass"):
+                        from iOpt.problems.GKLS_function.gkls_function import GKLSFunction, GKLSClass
+                        gen.SetFunctionClass(GKLSClass.Hard, n)
+                        gen.SetFunctionNumber(k)
+                        g2 = GKLSFunction()
+                        g2.SetDimension(n)
+                        g2.SetFunctionClass(GKLSClass.Hard, n)
+                        g2.SetFunctionNumber(k)
+                        a, b = gen.GKLS_minima, g2.GKLS_minima
+                        if not (np.array_equal(np.array(a.local_min, dtype=float), np.array(b.local_min, dtype=float))
+                                and np.array_equal(np.array(a.rho, dtype=float), np.array(b.rho, dtype=float))
+                                and np.array_equal(np.array(a.f, dtype=float), np.array(b.f, dtype=float))):
+                            msgs.append(f"{tag}: a generator switched to class Hard and asked for number {k} again differs "
+                                        f"from a freshly configured Hard generator of the same (dimension, number)")
                 except Exception as e:
                     msgs.append(f"{tag}: SetFunctionNumber({k}) on the generator of GKLS({n},{k % 100 + 1}) raised "
                                 f"{type(e).__name__}: {e}")
